@@ -201,7 +201,7 @@ theorem sites_Validate_Visit : Gen.UefiTotalVisitors.sites_Validate_Visit =
     ["uefi.FVGUIDs[_.FileSystemGUID]", "_.Buf()[:_.HeaderLen]", "_.Buf()[_:]"] := rfl
 
 theorem sites_Extract_Visit : Gen.UefiTotalVisitors.sites_Extract_Visit =
-    ["_.Buf()[:_.DataOffset]", "_.Buf()[_.DataOffset:]", "_.Buf()[_.DataOffset:]"] := rfl
+    ["_.Buf()[:_.DataOffset]", "_[:64]", "_.Buf()[_.DataOffset:]"] := rfl
 
 theorem sites_Extract_extractBinary : Gen.UefiTotalVisitors.sites_Extract_extractBinary = [] := rfl
 
